@@ -122,4 +122,15 @@ theorem clause_order_exact_model (U : Universe) (hU : MDet.WFU U) (P : Problem) 
         vars.filterMap (Abs.oSolv (MDet.solveRun U P fuel s0).2.origins) = reqSorted U r :=
   MDet.model_requires_order U hU P fuel s0
 
+/-- **The cached candidate variables of a requirement are exactly its candidates** (exact model of
+    `requirement_to_sorted_candidates`, every universe meeting the provider contract, problem, fuel and solver state,
+    sync and async): after any solve, the variables cached for a requirement stand for candidates of that requirement
+    only, and every candidate of the requirement has a variable among them — `decide()` never misses a candidate and
+    never tries a solvable that does not match. (`clause_order_exact_model` adds that they come in preference order.) -/
+theorem requirement_cache_exact (U : Universe) (hU : MDet.WFU U) (P : Problem) (fuel : Nat) (s0 : MDet.S) (r : Req)
+    (vsVars : List (List Nat)) (h : (MDet.solveRun U P fuel s0).2.reqCands.lookup r = some vsVars) :
+    (∀ v ∈ vsVars.flatten, ∃ c, Abs.oSolv (MDet.solveRun U P fuel s0).2.origins v = some c ∧ c ∈ U.reqCands r) ∧
+    (∀ c ∈ U.reqCands r, ∃ v ∈ vsVars.flatten, Abs.oSolv (MDet.solveRun U P fuel s0).2.origins v = some c) :=
+  (MDet.solveRun_tinv U hU P fuel s0).extra.cache r vsVars h
+
 end Resolvo.C07
